@@ -543,6 +543,18 @@ class Constellation(Harness):
                         cfg['kind'], dict(cfg=cfg, snr=a, after=other,
                                           failed=str(bad)[:400]))
                 n += 1
+            # ... and the other way round: the modulator of the other kind,
+            # used after this one in the same process
+            for a in (0.0, 7.5, 20.0):
+                bad = _float_rates(dict(kind=other, M=cfg['M'],
+                                        shape='scalar'), a, a, 1)
+                if bad:
+                    from pysym.runner import ConcreteViolation
+                    raise ConcreteViolation(
+                        'C16/%s/depends-on-previously-used-modulator' % other,
+                        dict(cfg=cfg, snr=a, after=cfg['kind'],
+                             failed=str(bad)[:400]))
+                n += 1
         return n
 
 
